@@ -133,17 +133,20 @@ def quat_to_rot_fr(q):
 
 
 def rational_rotation(rng, big=False):
-    while True:
+    for _ in range(1000):
         q = tuple(rng.randint(-6, 6) if big else rng.randint(-3, 3) for _ in range(4))
         if any(q):
             return np.array([[float(x) for x in row] for row in quat_to_rot_fr(q)])
+    return np.eye(3)
 
 
 def random_rotation(rng):
-    while True:
+    for _ in range(1000):
         q = np.array([rng.gauss(0, 1) for _ in range(4)])
         if q @ q > 1e-3:
             break
+    else:
+        q = np.array([1.0, 0.0, 0.0, 0.0])
     a, b, c, d = q / math.sqrt(q @ q)
     return np.array([[a * a + b * b - c * c - d * d, 2 * (b * c - a * d), 2 * (b * d + a * c)],
                      [2 * (b * c + a * d), a * a - b * b + c * c - d * d, 2 * (c * d - a * b)],
@@ -270,7 +273,7 @@ def case_kalign(rng):
     R, C = pair_for_align(rng)
     Rin, Cin = R.copy(), C.copy()
     with EighTap() as tap:
-        rmsd, RR, TT = kabsch_align(Rin, Cin, weight=None)
+        rmsd, RR, TT = kabsch_align(Rin, Cin, weight=None) if len(R) % 2 else kabsch_align(Rin, Cin)
     if not (np.array_equal(Rin, R) and np.array_equal(Cin, C)):
         return {"kind": "kalign", "R": R.tolist(), "C": C.tolist(), "error": "kabsch_align modified the geometries it was given"}, None
     if len(tap.calls) > 1:
@@ -320,10 +323,12 @@ def candidate_rmsds(R, C, runiq, cuniq, do_mirror):
 
 def small_labelled(rng, chiral=False):
     n = rng.choice([4, 5, 6, 7]) if chiral else rng.choice([2, 3, 4, 5, 6, 7])
-    while True:
+    for _ in range(500):
         R = gen_geometry(rng, n, "generic" if chiral else rng.choice(["generic", "generic", "planar", "symmetric"]))
         if not chiral or chirality(R) > 2.0:
             break
+    else:
+        R = np.array([[0.0, 0, 0], [1, 0, 0], [0, 2, 0], [0, 0, 3], [2, 2, 1], [-1, 1, 2], [1, -2, 2]])[:n]
     if chiral:
         labels = ["X%d" % k for k in range(n)]
         for k in rng.sample(range(n), rng.choice([0, 0, 2])):
@@ -879,8 +884,9 @@ def oracle(case):
         C = apply_recipe(R, shift, rot, perm, case["mirrored"])
         cuniq = labels[perm]
         with MirrorRedirect() as red:
-            rmsd, sol = red.orig(C.copy(), R.copy(), cuniq, labels, verbose=0, atoms_map=False, mols_align=False,
-                                 algorithm="permutative", run_mirror=case["run_mirror"])
+            kw = {"run_mirror": True, "mols_align": False} if case["run_mirror"] else \
+                ({"run_mirror": False, "mols_align": False} if len(R) % 2 else {})       # half of the 'off' cases rely on the defaults
+            rmsd, sol = red.orig(C.copy(), R.copy(), cuniq, labels, verbose=0, atoms_map=False, algorithm="permutative", **kw)
         bad = check_solution(R, C, labels, cuniq, rmsd, sol, kind)
         if bad:
             return bad
